@@ -78,16 +78,30 @@ BOGUS = ["no-such", "", " ", "utf-9", "utf_8_", "\x00", "a" * 300, "\u00e9", "\u
 # --------------------------------------------------------------------------------------------
 # input encoding for transport / replay
 # --------------------------------------------------------------------------------------------
+class StrSub(str):
+    """a str subclass as markup ("any str value")"""
+
+
+class BytesSub(bytes):
+    """a bytes subclass as markup"""
+
+
 def enc_markup(x):
+    sub = {"sub": type(x).__name__} if type(x) not in (str, bytes) else {}
     if isinstance(x, bytes):
-        return {"bytes": x.hex()}
-    return {"str": [ord(c) for c in x]}
+        return {"bytes": bytes(x).hex()} | sub
+    return {"str": [ord(c) for c in x]} | sub
 
 
 def dec_markup(d):
     if "bytes" in d:
-        return bytes.fromhex(d["bytes"])
-    return "".join(chr(c) for c in d["str"])
+        b = bytes.fromhex(d["bytes"])
+        return BytesSub(b) if d.get("sub") else b
+    t = "".join(chr(c) for c in d["str"])
+    if d.get("sub") == "NavigableString":
+        from bs4.element import NavigableString
+        return NavigableString(t)
+    return StrSub(t) if d.get("sub") else t
 
 
 def enc_kwargs(kw):
@@ -353,6 +367,8 @@ def eval_case(case):
     rec = run_constructor(markup, kwargs, post)
     rec["stream"] = stream
     st = strategy_of(markup, kwargs)
+    has_text = True if isinstance(markup, str) else dammit_has_text(markup, kwargs)
+    rec["has_text"] = has_text
     text = None if st is None else st[0]
     tok, names = ("ok", []) if text is None else plain_tokenize(text)
     rec["tok"] = tok
@@ -367,7 +383,7 @@ def eval_case(case):
     tab = orig_table(enc) if need_table else "-"
     tokc = tok if tok in ("ok", "assert", "value") else "other"
     model_kind = "ctor"
-    lines.append((f"c06 {model_kind} {kind} {cps_tok(units[:300])} {'some' if st is not None else 'none'} {tokc} {tab} "
+    lines.append((f"c06 {model_kind} {kind} {cps_tok(units[:300])} {'some' if has_text else 'none'} {tokc} {tab} "
                   f"{';'.join(cps_tok([ord(c) for c in n]) for n in names) if names else '-'}",
                   {"tree": "tree", "prm": "prm"}.get(rec["outcome"], "err " + rec["outcome"].split(":")[-1]), "outcome"))
     if len(units) <= 300 and not rec["outcome"].startswith("other"):
@@ -383,8 +399,29 @@ def eval_case(case):
     return rec, lines
 
 
+def dammit_has_text(markup, kwargs):
+    """Does UnicodeDammit itself end with text for these bytes (independently of how prepare_markup reads its result)?"""
+    from bs4.dammit import UnicodeDammit
+    if markup == b"":
+        return True
+    fe = kwargs.get("from_encoding") or None
+    try:
+        with warnings.catch_warnings():
+            warnings.simplefilter("ignore")
+            d = UnicodeDammit(markup, known_definite_encodings=[fe] if fe else [], user_encodings=[], is_html=True,
+                              exclude_encodings=kwargs.get("exclude_encodings"))
+        return getattr(d, "unicode_markup", None) is not None
+    except Exception:  # noqa (the constructor raises the same: reported by the outcome oracle)
+        return None
+
+
 def eval_chunk(chunk):
-    return [eval_case(c) for c in chunk]
+    """worker: the cases of one chunk, with every primitive of the call path recorded (exact classes raised)"""
+    from . import c06_envelope as E
+    seen = {}
+    with E.record(seen):
+        out = [eval_case(c) for c in chunk]
+    return out, {pt: sorted(E.proto_name(c) for c in cs) for pt, cs in seen.items()}
 
 
 # --------------------------------------------------------------------------------------------
@@ -607,6 +644,22 @@ def gen_heuristics(ctx):
             except UnicodeEncodeError:
                 pass
         out.append(("heur-rand", m, {}, True))
+    return out
+
+
+def gen_subclasses(ctx):
+    """str / bytes SUBCLASS instances as markup (the heuristics, prepare_markup and UnicodeDammit test with isinstance)"""
+    from bs4.element import NavigableString
+    out = []
+    strs = ["", "a.html", "index.HTM", "http://x/y", "a\udfffb.txt", "C:/x.xml", "plain", "<p>x</p>", "&#65;", DOCS[0], DOCS[2], "a" * 256 + ".txt"]
+    for t in strs:
+        out.append(("subclass", StrSub(t), {}, True))
+        out.append(("subclass", NavigableString(t), {}, True))
+        out.append(("subclass", StrSub(t), {"from_encoding": "utf-8"}, True))
+    for b in [b"", b"a.html", b"http://x", b"<p>\xe9</p>", b"\xff\xfe<\x00", DOCS[0].encode(), b"\xef\xbb\xbf", b"x.txt"]:
+        out.append(("subclass", BytesSub(b), {}, True))
+        out.append(("subclass", BytesSub(b), {"from_encoding": "latin-1"}, True))
+        out.append(("subclass", BytesSub(b), {"exclude_encodings": ("utf-8", "windows-1252")}, True))
     return out
 
 
@@ -1011,6 +1064,161 @@ def stream_fault(ctx, drv):
 
 
 # --------------------------------------------------------------------------------------------
+# the envelope: recorded kinds, injection at the primitives, the class hierarchy
+# --------------------------------------------------------------------------------------------
+def recorded_kinds():
+    """translate/parts_c06.py RECORDED as protocol names per harness point"""
+    import importlib.util
+    path = os.path.join(os.path.dirname(os.path.dirname(os.path.abspath(__file__))), "translate", "parts_c06.py")
+    src = open(path).read()
+    a = src.index("RECORDED = {")
+    b = src.index("}\n", a) + 1
+    rec = eval(src[a + len("RECORDED = "):b], {})
+    from . import c06_envelope as E
+    table = E.class_table()
+    names = {k: [E.proto_name(table[c]) for c in v] for k, v in rec.items()}
+    per_point = {}
+    for pt in E.POINTS:
+        key = {"tokFeed": "tokenizer", "tokClose": "tokenizer", "applyData": "callbacks", "applyOther": "callbacks", "endOfInput": "callbacks"}.get(pt, pt)
+        per_point[pt] = names[key]
+    return per_point
+
+
+def check_recorded(ctx, observed, cases):
+    """the trusted residue, measured: every exception class a primitive raised during the construct stream is a recorded kind"""
+    rec = recorded_kinds()
+    for pt, names in sorted(observed.items()):
+        ctx.count(f"primitive-raised:{pt}:" + ",".join(sorted(names)))
+        extra = sorted(set(names) - set(rec.get(pt, [])))
+        if extra:
+            # find an input: re-run the cases with recording until the class shows up at that point
+            from . import c06_envelope as E
+            found = None
+            for (stream, markup, kwargs, post) in cases:
+                seen = {}
+                with E.record(seen):
+                    run_constructor(markup, kwargs, post=False)
+                if any(E.proto_name(c) in extra for c in seen.get(pt, ())):
+                    found = (stream, markup, kwargs)
+                    break
+            case = {"op": "recorded", "point": pt, "classes": extra}
+            if found:
+                case |= {"markup": enc_markup(found[1]), "kwargs": enc_kwargs(found[2]), "shown": describe(found[1])}
+            ctx.violation(f"measured hypothesis broken: the primitive '{pt}' raised {extra}, not among the recorded kinds {rec.get(pt)} "
+                          "(translate/parts_c06.py RECORDED, hypothesis `Prims.Within Gen.C06.recorded` of envelope_live)",
+                          case=case, expected=rec.get(pt), observed=extra, stream="recorded", no_failing_input=True)
+    ctx.extra["primitives_observed_raising"] = {pt: sorted(v) for pt, v in sorted(observed.items())}
+
+
+INJECT_DOCS = {
+    "str": ["<p>&#65;&#x42;&#150;&#300;</p>tail", "<a href='x'>&#7;&#x100;</a><br/>t<b", "t&#129;<i>&#1114112;</i><!--c-->&#x41"],
+    "bytes": [b"<p>caf\xc3\xa9 &#65;&#150;&#300;</p>", b"<html><body>\xe2\x98\x83 &#200;&#x2603;</body></html>", b"plain &#65;&#999; \xc3\xa9 <p>x"],
+    "log": [b"<p>\x81 &#65;</p>", b"\x81\x8d<b>x</b>", b"<i>\xc3\x28\x8f</i>"],
+    "url": ["http://example.com/", "https://x/y.html", "index.html"],
+}
+
+
+def inject_docs(point):
+    if point == "warn":
+        return INJECT_DOCS["url"]
+    if point in ("cands", "lookup", "decode", "declaredProp", "dec1"):
+        return INJECT_DOCS["bytes"]
+    if point == "logWarning":
+        return INJECT_DOCS["log"]
+    return INJECT_DOCS["str"]
+
+
+def stream_inject(ctx, drv):
+    """every primitive x every class x several documents that reach it: what the caller sees, against the model (`predict`) and against the
+    envelope itself (a recorded kind never escapes)"""
+    from . import c06_envelope as E
+    table = E.class_table()
+    classes = list(table.values()) + [E.HarnessError, E.HarnessBaseError]
+    rec = recorded_kinds()
+    lines, impl, cases = [], [], []
+    for pt in E.POINTS:
+        for cls in classes:
+            name = E.proto_name(cls)
+            for doc in inject_docs(pt):
+                with E.inject(pt, cls):
+                    v = E.verdict(doc)
+                case = {"op": "inject", "point": pt, "class": name, "markup": enc_markup(doc), "shown": describe(doc)}
+                ctx.case(("I", pt, name, doc))
+                ctx.count(f"inject:{pt}:{v.split()[0]}")
+                lines.append(f"c06 inject live {pt} {name}")
+                impl.append(v)
+                cases.append(case)
+                if name in rec[pt] and v.startswith("escapes"):
+                    ctx.violation(f"{name}, a recorded kind of '{pt}', raised there escapes the constructor as {v[8:]} (document {describe(doc)})",
+                                  case=case, expected="a tree or ParserRejectedMarkup", observed=v, stream="inject")
+    # the class hierarchy the clauses rely on
+    hl, hi = [], []
+    for a in classes:
+        for b in classes:
+            hl.append(f"c06 issub {E.proto_name(a)} {E.proto_name(b)}")
+            hi.append("1" if issubclass(a, b) else "0")
+    rep = drv.ask(lines + hl)
+    for l, a, b, c in zip(lines, impl, rep, cases):
+        if a != b:
+            ctx.corr_disagreements += 1
+            if not capped(ctx, "inject", c["point"]):
+                ctx.violation(f"model and implementation disagree on what the caller sees when '{c['point']}' raises {c['class']}",
+                              case=c | {"line": l}, observed=a, model=b, stream="inject", no_failing_input=True)
+    for l, a, b in zip(hl, hi, rep[len(lines):]):
+        if a != b:
+            ctx.corr_disagreements += 1
+            ctx.violation("model and CPython disagree on issubclass", case={"op": "issub", "line": l}, observed=a, model=b, stream="inject",
+                          no_failing_input=True)
+    ctx.count("inject:requests", len(lines))
+    ctx.count("issub:requests", len(hl))
+    ctx.exhaustive_parts.append(f"injection: all {len(E.POINTS)} primitives x all {len(classes)} classes x 3 documents; issubclass on all class pairs")
+
+
+SEQUEL_POISON = ["<br><p>a<![x]>", "<p>text only <![x]", "<pre>\n k<b><![x]", "<a href=\"&#" + "9" * 4301 + ";\">x</a>"]
+SEQUEL_DOCS = ["<p>a</br>b</p>", "x</br></p>y<br>z</br>", "<pre>\n p</pre> <b> </b>", "<br/></br><hr></hr>t", "text"]
+
+
+def stream_sequel(ctx):
+    """nothing of a rejected document survives into the NEXT document: same process, fresh builder and shared builder instance"""
+    from bs4 import BeautifulSoup
+    from bs4.builder import HTMLParserTreeBuilder
+    from bs4.exceptions import ParserRejectedMarkup
+
+    def parse(doc, builder=None):
+        with warnings.catch_warnings():
+            warnings.simplefilter("ignore")
+            s = BeautifulSoup(doc, "html.parser") if builder is None else BeautifulSoup(doc, builder=builder)
+        d = dump(s)
+        d["state"].pop("builder", None)
+        return d
+    for doc in SEQUEL_DOCS:
+        base = parse(doc)
+        for poison in SEQUEL_POISON:
+            for shared in (False, True):
+                b = HTMLParserTreeBuilder() if shared else None
+                try:
+                    with warnings.catch_warnings():
+                        warnings.simplefilter("ignore")
+                        BeautifulSoup(poison, "html.parser") if b is None else BeautifulSoup(poison, builder=b)
+                    rejected = False
+                except ParserRejectedMarkup:
+                    rejected = True
+                except Exception:  # noqa (reported by the construct stream)
+                    rejected = False
+                after = parse(doc, b)
+                ctx.case(("S", doc, poison, shared) if rejected else None)
+                ctx.count(f"sequel:{'shared-builder' if shared else 'fresh-builder'}:{'after-rejection' if rejected else 'after-success'}")
+                if after != base:
+                    diff = [k for k in after["state"] if after["state"][k] != base["state"].get(k)]
+                    ctx.violation("a document parsed after a rejected one differs from the same document parsed before it"
+                                  + (" (shared builder instance)" if shared else ""),
+                                  case={"op": "sequel", "doc": doc, "poison": poison if len(poison) < 100 else poison[:40] + "…", "shared_builder": shared,
+                                        "poison_full": enc_markup(poison)},
+                                  expected={"nodes": base["nodes"][:8]}, observed={"nodes": after["nodes"][:8], "state_fields_differing": diff},
+                                  stream="sequel")
+
+
+# --------------------------------------------------------------------------------------------
 # outside the quantifier: recorded only
 # --------------------------------------------------------------------------------------------
 def record_outside(ctx):
@@ -1111,6 +1319,9 @@ def aggregate(ctx, drv, cases, results):
             ctx.violation(f"BeautifulSoup({describe(markup)}, 'html.parser'{''.join(', %s=%r' % kv for kv in kwargs.items())[:120]}) raised "
                           f"{rec['outcome'][6:]}: {rec['exc']}", case=case, expected="a tree or ParserRejectedMarkup", observed=rec["outcome"][6:],
                           stream=stream, kf=classify_known(markup, kwargs, rec))
+        if rec.get("has_text") and rec["tok"] == "ok" and rec["outcome"] == "prm" and not capped(ctx, stream, "prm-without-cause"):
+            ctx.violation(f"BeautifulSoup({describe(markup)}, ...) raised ParserRejectedMarkup although UnicodeDammit produced text and the tokenizer "
+                          "alone accepts it: " + str(rec["exc"]), case=case, expected="a tree", observed="ParserRejectedMarkup", stream=stream)
         if rec["link"] and not capped(ctx, stream, "link"):
             ctx.violation("the constructed tree is not well linked: " + rec["link"], case=case, stream=stream)
         if rec["post"] and not capped(ctx, stream, "post:" + rec["post"][:30]):
@@ -1177,12 +1388,14 @@ def run(ctx: Ctx):
     cases += gen_charrefs(ctx)
     cases += gen_structural(ctx)
     cases += gen_heuristics(ctx)
+    cases += gen_subclasses(ctx)
     bytes_cases = gen_bytes(ctx)
     cases += bytes_cases
     cases += gen_fuzz_str(ctx)
 
     # run (forked workers; results in input order, so the run is deterministic for a seed), in segments to bound memory
     nproc = min(16, os.cpu_count() or 1)
+    observed = {}
     pool = None
     if nproc > 1 and len(cases) > 400:
         import multiprocessing as mp
@@ -1193,16 +1406,22 @@ def run(ctx: Ctx):
             seg = cases[s0:s0 + SEG]
             chunks = [seg[i:i + 100] for i in range(0, len(seg), 100)]
             results = pool.map(eval_chunk, chunks, chunksize=1) if pool else [eval_chunk(c) for c in chunks]
-            results = [x for ch in results for x in ch]
+            for _, seen in results:
+                for pt, names in seen.items():
+                    observed.setdefault(pt, set()).update(names)
+            results = [x for ch, _ in results for x in ch]
             aggregate(ctx, drv, seg, results)
     finally:
         if pool:
             pool.close()
             pool.join()
 
+    check_recorded(ctx, observed, cases)
     stream_charref_direct(ctx, drv)
     stream_dammit(ctx, drv, bytes_cases)
     stream_fault(ctx, drv)
+    stream_sequel(ctx)
+    stream_inject(ctx, drv)
     record_outside(ctx)
 
     # list one violation of every (stream, observation) class before the second of any: the replays written first are varied
@@ -1229,6 +1448,37 @@ def replay(path):
         print("outcome:", rec["outcome"], rec["exc"] or "", "| link:", rec["link"], "| post:", rec["post"])
         print("property demands: a tree (well linked, renderable, searchable, copyable) or ParserRejectedMarkup")
         return 0 if (rec["outcome"] in ("tree", "prm") and not rec["link"] and not rec["post"]) else 1
+    if c.get("op") == "inject":
+        from . import c06_envelope as E
+        table = E.class_table()
+        cls = {E.proto_name(k): k for k in list(table.values()) + [E.HarnessError, E.HarnessBaseError]}[c["class"]]
+        doc = dec_markup(c["markup"])
+        with E.inject(c["point"], cls):
+            got = E.verdict(doc)
+        print(f"every call of '{c['point']}' raises {c['class']} while constructing {describe(doc)}: the caller sees: {got}")
+        print("model / property:", v.get("model_reply") or v.get("expected"))
+        want = v.get("model_reply")
+        return 0 if (got == want if want else not got.startswith("escapes")) else 1
+    if c.get("op") == "sequel":
+        from bs4 import BeautifulSoup
+        from bs4.builder import HTMLParserTreeBuilder
+        poison = dec_markup(c["poison_full"])
+        b = HTMLParserTreeBuilder() if c["shared_builder"] else None
+        before = BeautifulSoup(c["doc"], "html.parser").decode()
+        try:
+            BeautifulSoup(poison, "html.parser") if b is None else BeautifulSoup(poison, builder=b)
+        except Exception as e:  # noqa
+            print("poison document:", type(e).__name__)
+        after = (BeautifulSoup(c["doc"], "html.parser") if b is None else BeautifulSoup(c["doc"], builder=b)).decode()
+        print("before:", before, "| after:", after)
+        return 0 if before == after else 1
+    if c.get("op") == "recorded" and "markup" in c:
+        from . import c06_envelope as E
+        seen = {}
+        with E.record(seen):
+            run_constructor(dec_markup(c["markup"]), dec_kwargs(c.get("kwargs", {})), post=False)
+        print("primitives raising on this input:", {k: sorted(x.__name__ for x in v2) for k, v2 in seen.items()})
+        return 1
     if c.get("op") == "charref-direct":
         from bs4 import BeautifulSoup
         from bs4.builder._htmlparser import BeautifulSoupHTMLParser
